@@ -74,7 +74,7 @@ pub fn check_case(case: &MapCase, st: &mut Stats) -> Check {
         st.sample(|| case.sample());
     }
     let bytes = case.bytes();
-    let m_params = mapper(&bytes, true)?;
+    let variants = mapper_variants(&bytes)?;
     let buf = write_cache(&bytes)?;
     let cache = parse_cache(&buf)?;
     // queries naming entries that the inline filter or the de-duplication removed are non-trivial, too
@@ -85,7 +85,8 @@ pub fn check_case(case: &MapCase, st: &mut Stats) -> Check {
             }
         }
     }
-    let impls: [&dyn Retracer; 2] = [&m_params, &cache];
+    let mut impls: Vec<&dyn Retracer> = variants.iter().filter(|(_, p)| *p).map(|(m, _)| m as &dyn Retracer).collect();
+    impls.push(&cache);
     for (ii, r) in impls.into_iter().enumerate() {
         no_panic("query", || {
             let mut scratch = Stats::new();
